@@ -38,3 +38,17 @@ package messages
 //@ trusted
 //@ requires @C22 registered-before-start: ghost.senderActive
 //@ assigns nothing
+
+// C22: the retransmission loop (the goroutine body) offers the stop channel
+// between any two retransmissions: every iteration of its select loop sends at
+// most one copy (ghost counter reset at the loop head, where the select with
+// the stop case is), so that after Stop at most one already-due copy goes out.
+//@ ghost sentThisRound int
+//@ interface Messenger.SendMessage
+//@ requires @C22 @in:(*RedundantMessenger).SendMessage$1 one-copy-per-stop-poll: ghost.sentThisRound == 0
+//@ sets ghost.sentThisRound = ghost.sentThisRound + 1
+//@ assigns ghost.sentThisRound
+
+//@ func (*RedundantMessenger).SendMessage$1
+//@ property C22
+//@ loop 0 sets ghost.sentThisRound = 0
